@@ -234,6 +234,8 @@ HOOKS = (
 def _hook_point(proc, hook, pos):
     w = world.cur()
     pid = proc._pid  # pid may not be set yet in on_create(pre): read the attribute plumpy itself uses
+    if hook == 'on_create' and pos == 'pre':
+        w.extra.setdefault('instances', []).append(proc)
     if pos == 'pre':
         cnt = w.hook_counts.get((pid, hook), 0) + 1
         w.hook_counts[(pid, hook)] = cnt
@@ -287,10 +289,15 @@ class ProgBase(HookMixin, ContextMixin, Process):
 
             port_model.build_spec(spec, sp)
 
+    def load_instance_state(self, saved_state, load_context):
+        super().load_instance_state(saved_state, load_context)
+        world.cur().extra.setdefault('instances', []).append(self)
+
     # ---- trace helpers ----
     def _t(self, kind, idx, **extra):
         entry = {
             'k': kind,
+            'oid': id(self),
             'step': step_name(idx),
             'paused': self.paused,
             'cur': Process.current() is self,
@@ -342,6 +349,15 @@ class ProgBase(HookMixin, ContextMixin, Process):
             exc = ProgError(item[1])
             world.cur().extra.setdefault('raised', []).append(exc)
             raise exc
+        elif kind == 'launch':
+            child = self.launch(make_class(item[1]), pid=f'{self.pid}/{item[2]}')
+            world.cur().extra.setdefault('children', []).append(child)
+            self._t('launched', idx, child=item[2])
+        elif kind == 'nested':
+            child = make_class(item[1])(pid=f'{self.pid}/{item[2]}', loop=self.loop)
+            world.cur().extra.setdefault('children', []).append(child)
+            child.execute()
+            self._t('after-nested', idx, child=item[2], child_state=child.state.value)
         else:
             raise ValueError(f'unknown item {item}')
 
